@@ -72,6 +72,8 @@ var registry = map[string]propDef{
 	"C19m": {"other", props.C19mesh},
 	"C19s": {"other", props.C19setconn},
 	"C19w": {"other", props.C19wait},
+	"C19k": {"other", props.Wakers("p2p")},
+	"C10y": {"other", props.Wakers("gmw")},
 	"C19o": {"other", props.C19shift},
 	"C10z": {"other", props.C19shift},
 	"C20":  {"other", props.C20transport},
@@ -95,6 +97,9 @@ var registry = map[string]propDef{
 	"C18i": {"other", props.C18kept},
 	"C06w": {"other", props.OTwindows},
 	"C15w": {"other", props.OTwindows},
+	"C15g": {"other", props.C06geom},
+	"C15s": {"other", props.C06prg},
+	"C15p": {"other", props.C06pack},
 	"C02w": {"other", props.OTwindows},
 	"C02k": {"other", props.C06kdf},
 	"C02m": {"other", props.C06mitccrh},
@@ -150,6 +155,8 @@ var registry = map[string]propDef{
 	"C13b": {"other", props.C13scan},
 	"C13o": {"other", props.C13offsets},
 	"C13f": {"other", props.C13fresh},
+	"C13c": {"other", props.C13clear},
+	"C13e": {"other", props.C13ext},
 	"C17":  {"other", props.C17},
 	"C17p": {"other", props.C17pool},
 	"C02o": {"other", props.C17pool},
@@ -174,6 +181,15 @@ var registry = map[string]propDef{
 	"C15c": {"other", props.C15chi},
 	"C16":  {"other", props.C16},
 	"C16l": {"other", props.C16label},
+	"C16s": {"other", props.PackShifts},
+	"C06h": {"other", props.PackShifts},
+	"C10h": {"other", props.PackShifts},
+	"C18s": {"other", props.PackShifts},
+	"C20s": {"other", props.PackShifts},
+	"C15h": {"other", props.PackShifts},
+	"C15x": {"other", props.WordExact},
+	"C06x": {"other", props.WordExact},
+	"C01x": {"other", props.WordExact},
 	"C06r": {"other", props.C06rounding},
 	"C14l": {"other", props.C14lints},
 	"C14c": {"other", props.C14codec},
@@ -190,6 +206,9 @@ func main() {
 	tags := flag.String("tags", "", "build tags of the configuration to analyse")
 	replayPath := flag.String("replay", "", "re-decide the obligation recorded in this violation file and print it")
 	flag.Parse()
+	if *prop == "ALL" {
+		os.Exit(runAll(*repo, *verif, *tier, *goarch, *tags))
+	}
 	def, ok := registry[*prop]
 	var group []string
 	if !ok || len(*prop) == 3 {
@@ -251,4 +270,50 @@ func main() {
 		os.Exit(run.Replay(replay, known))
 	}
 	os.Exit(run.Finish(*verif, known))
+}
+
+// runAll decides every property over one loaded program (used by the self-test batteries: one load instead
+// of twenty).  Each property reports into its own Run exactly as in the single-property mode.
+func runAll(repo, verif, tier, goarch, tags string) int {
+	props.Deep = tier == "thorough"
+	known, kerr := report.LoadKnown(filepath.Join(verif, "known_findings.txt"))
+	p, err := load.Load(load.Config{Dir: repo, VTA: tier == "thorough", GOARCH: goarch, Tags: tags})
+	ids := map[string][]string{}
+	for k := range registry {
+		ids[k[:3]] = append(ids[k[:3]], k)
+	}
+	var order []string
+	for id := range ids {
+		order = append(order, id)
+	}
+	sort.Strings(order)
+	exit := 0
+	for _, id := range order {
+		group := ids[id]
+		sort.Strings(group)
+		level := registry[group[0]].level
+		run := report.New(id, tier, level, 0)
+		if kerr != nil {
+			run.Undecided("known-findings", "known_findings.txt", "", kerr.Error())
+		}
+		if err != nil {
+			run.Undecided("load", repo, "", err.Error())
+		} else {
+			run.Count("packages", len(p.Pkgs))
+			func() {
+				defer func() {
+					if r := recover(); r != nil {
+						run.Undecided("engine-panic", id, "", fmt.Sprint(r))
+					}
+				}()
+				for _, k := range group {
+					registry[k].run(p, run)
+				}
+			}()
+		}
+		if rc := run.Finish(verif, known); rc > exit {
+			exit = rc
+		}
+	}
+	return exit
 }
